@@ -3,7 +3,7 @@
 From Coq Require Import List Sorting Permutation ZArith String Bool Lia Arith QArith
   OrderedTypeEx Lqa.
 From CC Require Import Base.XQ Base.SortX Spec.OrderSpec Model.Collator
-  Proofs.OrderCollate Proofs.OrderExplicit Proofs.OrderIds Proofs.OrderVisible.
+  Proofs.OrderCollate Proofs.OrderExplicit Proofs.OrderIds Proofs.OrderVisible Proofs.SbvDedup.
 Import ListNotations.
 Local Close Scope Q_scope.
 Local Open Scope nat_scope.
@@ -306,9 +306,418 @@ Proof.
   reflexivity.
 Qed.
 
+(* the {id: idx} dict: the element found has the id asked for, so two ids never share an index
+   (whether or not the element ids are distinct) *)
+Lemma idx_by_id_nth ids i k : idx_by_id ids i = Some k -> nth k ids INone = i.
+Proof.
+  unfold idx_by_id.
+  assert (G : forall (l : list (nat * ident)) acc,
+             fold_left (fun acc (ke : nat * ident) => if ident_eqb (snd ke) i then Some (fst ke) else acc) l acc
+             = Some k -> acc = Some k \/ In (k, i) l).
+  { induction l as [|x t IH]; simpl; intros acc H; auto.
+    apply IH in H. destruct H as [H|H]; auto.
+    destruct (ident_eqb (snd x) i) eqn:E; auto. inversion H; subst. right. left.
+    apply ident_eqb_eq in E. destruct x. simpl in *. subst. reflexivity. }
+  intros H. apply G in H. destruct H as [H|H]; [discriminate|].
+  apply (enumerate_nth _ _ _ INone H).
+Qed.
+
+Local Arguments fixed_idxs : simpl never.
+
+Lemma fixed_idxs_cons ids i r :
+  fixed_idxs ids (i :: r)
+  = (match idx_by_id ids i with Some k => [k] | None => [] end) ++ fixed_idxs ids r.
+Proof. reflexivity. Qed.
+
+Lemma fixed_idxs_app ids a b : fixed_idxs ids (a ++ b) = fixed_idxs ids a ++ fixed_idxs ids b.
+Proof. unfold fixed_idxs. apply flat_map_app. Qed.
+
+Lemma fixed_idxs_in_iff ids listed k :
+  In k (fixed_idxs ids listed) <-> exists i, In i listed /\ idx_by_id ids i = Some k.
+Proof.
+  unfold fixed_idxs. rewrite in_flat_map. split.
+  - intros (i & Hi & H). exists i. split; auto.
+    destruct (idx_by_id ids i); [|destruct H]. destruct H as [<-|[]]. reflexivity.
+  - intros (i & Hi & E). exists i. split; auto. rewrite E. left. reflexivity.
+Qed.
+
+(* a fixed group only holds indexes of elements whose id is listed *)
+Lemma fixed_idxs_listed ids listed k :
+  In k (fixed_idxs ids listed) -> k < List.length ids /\ In (nth k ids INone) listed.
+Proof.
+  intros H. apply fixed_idxs_in_iff in H. destruct H as (i & Hi & E). split.
+  - apply (idx_by_id_bound _ _ _ E).
+  - rewrite (idx_by_id_nth _ _ _ E). exact Hi.
+Qed.
+
+(* --- no group lists an index twice ----------------------------------------------------------------- *)
+Lemma NoDup_map_of_nat (l : list nat) : NoDup l -> NoDup (map Z.of_nat l).
+Proof.
+  induction 1 as [|x t Hx Ht IH]; simpl; constructor; auto.
+  intros I. apply in_map_iff in I. destruct I as (y & E & Hy). apply Nat2Z.inj in E. subst. auto.
+Qed.
+
+Lemma NoDup_map_fst_of_nat {B} (l : list (nat * B)) :
+  NoDup (map fst l) -> NoDup (map (fun e : nat * B => Z.of_nat (fst e)) l).
+Proof.
+  intros N. apply NoDup_map_of_nat in N. rewrite map_map in N. exact N.
+Qed.
+
+Lemma NoDup_map_partition {A B} (f : A -> B) (p q : A -> bool) l :
+  (forall x, q x = negb (p x)) ->
+  NoDup (map f l) ->
+  NoDup (map f (filter p l) ++ map f (filter q l)).
+Proof.
+  intros Q. induction l as [|x t IH]; simpl; intros N; [constructor|].
+  inversion N as [|? ? Hx Ht]; subst. specialize (IH Ht).
+  assert (Hnot : ~ In (f x) (map f (filter p t) ++ map f (filter q t))).
+  { intros I. apply Hx. apply in_app_or in I.
+    destruct I as [I|I]; apply in_map_iff in I; destruct I as (y & E & Hy);
+      apply filter_In in Hy; rewrite <- E; apply in_map; apply Hy. }
+  rewrite (Q x). destruct (p x); simpl.
+  - constructor; assumption.
+  - eapply Permutation_NoDup; [apply Permutation_middle|]. constructor; assumption.
+Qed.
+
+Lemma fst_enumerate_nodup {A} (l : list A) : NoDup (map fst (enumerate l)).
+Proof. rewrite fst_enumerate. apply seq_NoDup. Qed.
+
+Lemma subtotal_idxs_nodup desc (svals : list sval) : NoDup (subtotal_idxs desc svals).
+Proof.
+  unfold subtotal_idxs, subtotal_keys, subtotal_nans.
+  set (c := combine svals (neg_idxs (List.length svals))).
+  assert (S : map snd c = neg_idxs (List.length svals))
+    by (apply map_snd_combine; rewrite neg_idxs_length; reflexivity).
+  assert (ND : NoDup (map snd c)) by (rewrite S; apply neg_idxs_nodup).
+  eapply Permutation_NoDup.
+  - apply Permutation_app_tail. apply Permutation_map. apply Permutation_sym.
+    apply (isort_perm (vkey_dir_leb desc)).
+  - apply (NoDup_map_partition snd (fun k : vkey => negb (sval_nan (fst k)))
+                                (fun k : vkey => sval_nan (fst k)) c); [|exact ND].
+    intros x. rewrite negb_involutive. reflexivity.
+Qed.
+
+Lemma body_idxs_nodup desc (vals : list sval) fixed : NoDup (body_idxs desc vals fixed).
+Proof.
+  unfold body_idxs, body_keys, body_nans.
+  set (f := fun kv : nat * sval => Z.of_nat (fst kv)).
+  set (l := filter (fun kv : nat * sval => negb (nmem (fst kv) fixed)) (enumerate vals)).
+  assert (ND : NoDup (map f l)).
+  { unfold f, l. apply NoDup_map_fst_of_nat.
+    apply NoDup_map_filter. apply fst_enumerate_nodup. }
+  assert (X := NoDup_map_partition f (fun kv : nat * sval => negb (sval_nan (snd kv)))
+                                  (fun kv : nat * sval => sval_nan (snd kv)) l
+                                  (fun x => eq_sym (negb_involutive _)) ND).
+  unfold l in X. rewrite !filter_filter in X.
+  eapply Permutation_NoDup; [|exact X].
+  apply Permutation_app_tail.
+  eapply Permutation_trans.
+  2:{ apply Permutation_map. apply Permutation_sym. apply (isort_perm (vkey_dir_leb desc)). }
+  rewrite map_map. unfold f. simpl. apply Permutation_refl.
+Qed.
+
+Lemma body_idxs_nonneg desc (vals : list sval) fixed z :
+  In z (body_idxs desc vals fixed) -> (0 <= z)%Z.
+Proof.
+  unfold body_idxs. intros H. apply in_app_or in H. destruct H as [H|H].
+  - apply sort_vkeys_in in H. unfold body_keys in H. rewrite map_map in H.
+    apply in_map_iff in H. destruct H as (x & E & _). simpl in E. lia.
+  - unfold body_nans in H. apply in_map_iff in H. destruct H as (x & E & _). lia.
+Qed.
+
+(* the body only depends on WHICH indexes are fixed *)
+Lemma body_idxs_ext desc (vals : list sval) f f' :
+  (forall k, In k f <-> In k f') -> body_idxs desc vals f = body_idxs desc vals f'.
+Proof.
+  intros H.
+  assert (E : forall k, nmem k f = nmem k f').
+  { intros k. destruct (nmem k f) eqn:A, (nmem k f') eqn:B; auto.
+    - apply nmem_In, H, nmem_In in A. congruence.
+    - apply nmem_In, H, nmem_In in B. congruence. }
+  unfold body_idxs, body_keys, body_nans.
+  rewrite (filter_ext (fun kv : nat * sval => negb (nmem (fst kv) f) && negb (sval_nan (snd kv)))
+                      (fun kv : nat * sval => negb (nmem (fst kv) f') && negb (sval_nan (snd kv))))
+    by (intros kv; rewrite E; reflexivity).
+  rewrite (filter_ext (fun kv : nat * sval => negb (nmem (fst kv) f) && sval_nan (snd kv))
+                      (fun kv : nat * sval => negb (nmem (fst kv) f') && sval_nan (snd kv)))
+    by (intros kv; rewrite E; reflexivity).
+  reflexivity.
+Qed.
+
+(* --- the display order: plain concatenation, then first mentions -------------------------------------- *)
+(* what the collator builds before tuple(dict.fromkeys(...)) *)
+Definition sbv_plain (d : dimension) (s : sortspec) (vals svals : list sval) (empties : list nat)
+  : list Z :=
+  displayed (collator_hidden d empties) (List.concat (sbv_segments (d_ids d) s vals svals)).
+
+Theorem sbv_display_first_mentions d s vals svals empties :
+  sbv_display d s vals svals empties = first_mentions (sbv_plain d s vals svals empties).
+Proof. reflexivity. Qed.
+
+(* the fixed lists as they take effect: an id counts where it is FIRST mentioned - once inside a
+   list, and an id of fixed.top is ignored in fixed.bottom *)
+Definition fixed_normal (s : sortspec) : sortspec :=
+  mkSort (s_desc s) (dedup_first (s_top s))
+         (filter (fun i => negb (imem i (s_top s))) (dedup_first (s_bottom s))).
+
+(* no element of the dimension is named twice in fixed.top ++ fixed.bottom (ids of no element
+   may repeat - they are dropped anyway) *)
+Definition fixed_once (ids : list ident) (s : sortspec) : Prop :=
+  NoDup (filter (fun i => imem i ids) (s_top s ++ s_bottom s)).
+
+Lemma fixed_idxs_nodup ids listed :
+  NoDup (filter (fun i => imem i ids) listed) -> NoDup (fixed_idxs ids listed).
+Proof.
+  induction listed as [|i r IH]; cbn [filter]; intros F; [constructor|].
+  rewrite fixed_idxs_cons.
+  destruct (idx_by_id ids i) as [k|] eqn:E; cbn [app].
+  - assert (M : imem i ids = true).
+    { apply imem_In. rewrite <- (idx_by_id_nth _ _ _ E). apply nth_In.
+      apply (idx_by_id_bound _ _ _ E). }
+    rewrite M in F. inversion F as [|? ? Hi Hr]; subst.
+    constructor; [|apply IH; exact Hr].
+    intros I. apply fixed_idxs_listed in I. destruct I as [_ J].
+    rewrite (idx_by_id_nth _ _ _ E) in J.
+    apply Hi. apply filter_In. split; [exact J|exact M].
+  - apply IH. destruct (imem i ids); [inversion F; assumption|exact F].
+Qed.
+
+Lemma in_map_of_nat k l : In (Z.of_nat k) (map Z.of_nat l) <-> In k l.
+Proof.
+  rewrite in_map_iff. split.
+  - intros (x & E & H). apply Nat2Z.inj in E. subst. exact H.
+  - intros H. exists k. auto.
+Qed.
+
+(* dropping the later mentions of an id drops the later mentions of its index *)
+Lemma fixed_drop_id ids i k L :
+  idx_by_id ids i = Some k ->
+  filter (zneqb (Z.of_nat k)) (map Z.of_nat (fixed_idxs ids L))
+  = map Z.of_nat (fixed_idxs ids (filter (fun j => negb (ident_eqb j i)) L)).
+Proof.
+  intros E. induction L as [|j L IH]; [reflexivity|].
+  rewrite fixed_idxs_cons, map_app, filter_app, IH. simpl.
+  destruct (ident_eqb j i) eqn:J; simpl.
+  - apply ident_eqb_eq in J. subst j. rewrite E. simpl.
+    assert (Z : zneqb (Z.of_nat k) (Z.of_nat k) = false).
+    { unfold zneqb. rewrite Z.eqb_refl. reflexivity. }
+    rewrite Z. reflexivity.
+  - rewrite fixed_idxs_cons, map_app. f_equal.
+    destruct (idx_by_id ids j) as [k'|] eqn:E'; [|reflexivity]. simpl.
+    assert (Z : zneqb (Z.of_nat k) (Z.of_nat k') = true).
+    { apply zneqb_true. intros X. apply Nat2Z.inj in X. subst k'.
+      apply ident_eqb_neq in J. apply J.
+      rewrite <- (idx_by_id_nth _ _ _ E'). apply (idx_by_id_nth _ _ _ E). }
+    rewrite Z. reflexivity.
+Qed.
+
+Lemma fixed_drop_stale ids i L :
+  idx_by_id ids i = None ->
+  fixed_idxs ids (filter (fun j => negb (ident_eqb j i)) L) = fixed_idxs ids L.
+Proof.
+  intros E. induction L as [|j L IH]; [reflexivity|]. simpl.
+  destruct (ident_eqb j i) eqn:J; simpl.
+  - apply ident_eqb_eq in J. subst j. rewrite fixed_idxs_cons, E. exact IH.
+  - rewrite !fixed_idxs_cons, IH. reflexivity.
+Qed.
+
+(* inside one list: the indexes, each at its first mention = the indexes of the ids, each at its
+   first mention *)
+Theorem fixed_first_mentions ids L :
+  first_mentions (map Z.of_nat (fixed_idxs ids L)) = map Z.of_nat (fixed_idxs ids (dedup_first L)).
+Proof.
+  induction L as [|i L IH]; [reflexivity|].
+  cbn [dedup_first]. rewrite !fixed_idxs_cons.
+  destruct (idx_by_id ids i) as [k|] eqn:E.
+  - cbn [app map]. rewrite first_mentions_cons, IH. f_equal. apply fixed_drop_id. exact E.
+  - cbn [app]. rewrite IH. rewrite fixed_drop_stale by exact E. reflexivity.
+Qed.
+
+(* across the lists: an index that fixed.top holds is dropped from fixed.bottom = an id that
+   fixed.top names is dropped from fixed.bottom *)
+Theorem fixed_bottom_minus_top ids top L :
+  filter (znotin (map Z.of_nat (fixed_idxs ids top))) (map Z.of_nat (fixed_idxs ids L))
+  = map Z.of_nat (fixed_idxs ids (filter (fun i => negb (imem i top)) L)).
+Proof.
+  induction L as [|j L IH]; [reflexivity|].
+  rewrite fixed_idxs_cons, map_app, filter_app, IH.
+  destruct (idx_by_id ids j) as [k|] eqn:E.
+  - assert (Q : znotin (map Z.of_nat (fixed_idxs ids top)) (Z.of_nat k) = negb (imem j top)).
+    { destruct (imem j top) eqn:M; simpl.
+      - apply imem_In in M. unfold znotin. apply negb_false_iff. apply zmem_In.
+        apply in_map_of_nat. apply fixed_idxs_in_iff. exists j. auto.
+      - apply znotin_true. intros I. apply in_map_of_nat in I.
+        apply fixed_idxs_listed in I. destruct I as [_ I].
+        rewrite (idx_by_id_nth _ _ _ E) in I. apply imem_In in I. congruence. }
+    simpl. rewrite Q. destruct (imem j top); simpl; [reflexivity|].
+    rewrite fixed_idxs_cons, E. reflexivity.
+  - simpl. destruct (imem j top); simpl; [reflexivity|]. rewrite fixed_idxs_cons, E. reflexivity.
+Qed.
+
+(* the same indexes are fixed *)
+Lemma fixed_normal_members ids s k :
+  In k (fixed_idxs ids (s_top (fixed_normal s)) ++ fixed_idxs ids (s_bottom (fixed_normal s)))
+  <-> In k (fixed_idxs ids (s_top s) ++ fixed_idxs ids (s_bottom s)).
+Proof.
+  unfold fixed_normal. cbn [s_top s_bottom]. rewrite !in_app_iff.
+  rewrite <- !in_map_of_nat.
+  rewrite <- fixed_bottom_minus_top, <- !fixed_first_mentions.
+  rewrite filter_In, !first_mentions_in, znotin_true.
+  destruct (in_dec Z.eq_dec (Z.of_nat k) (map Z.of_nat (fixed_idxs ids (s_top s)))); tauto.
+Qed.
+
+Lemma dedup_first_in l i : In i (dedup_first l) <-> In i l.
+Proof.
+  induction l as [|x t IH]; [tauto|]. cbn [dedup_first In]. rewrite filter_In, IH. cbv beta.
+  destruct (ident_eqb i x) eqn:E.
+  - apply ident_eqb_eq in E. subst. tauto.
+  - apply ident_eqb_neq in E. simpl. split.
+    + intros [H|[H _]]; auto.
+    + intros [H|H]; [congruence|]. right. split; auto.
+Qed.
+
+Lemma dedup_first_nodup l : NoDup (dedup_first l).
+Proof.
+  induction l as [|x t IH]; [constructor|]. cbn [dedup_first]. constructor.
+  - intros I. apply filter_In in I. destruct I as [_ I]. rewrite ident_eqb_refl in I. discriminate.
+  - apply NoDup_filter_any. exact IH.
+Qed.
+
+(* the normalised lists name no id twice *)
+Theorem fixed_normal_once ids s : fixed_once ids (fixed_normal s).
+Proof.
+  unfold fixed_once, fixed_normal. cbn [s_top s_bottom]. apply NoDup_filter_any.
+  apply NoDup_app_disj.
+  - apply dedup_first_nodup.
+  - apply NoDup_filter_any. apply dedup_first_nodup.
+  - intros i Ht Hb. apply filter_In in Hb. destruct Hb as [_ Hb].
+    apply (proj1 (dedup_first_in _ _)) in Ht. apply (proj2 (imem_In _ _)) in Ht.
+    cbv beta in Hb. rewrite Ht in Hb. discriminate.
+Qed.
+
+(* five groups: duplicate-free negative ones outside, duplicate-free body in the middle that shares
+   nothing with the two fixed groups *)
+Lemma first_mentions_five (S1 T B Bt S2 : list Z) :
+  NoDup S1 -> NoDup B -> NoDup S2 ->
+  (forall z, In z S1 -> (z < 0)%Z) -> (forall z, In z S2 -> (z < 0)%Z) ->
+  (forall z, In z S2 -> ~ In z S1) ->
+  (forall z, In z T -> (0 <= z)%Z) -> (forall z, In z Bt -> (0 <= z)%Z) ->
+  (forall z, In z B -> (0 <= z)%Z /\ ~ In z T /\ ~ In z Bt) ->
+  first_mentions (S1 ++ T ++ B ++ Bt ++ S2)
+  = S1 ++ first_mentions T ++ B ++ filter (znotin T) (first_mentions Bt) ++ S2.
+Proof.
+  intros N1 NB N2 H1 H2 D12 HT HBt HB.
+  rewrite first_mentions_app_disjoint.
+  2:{ intros z Hz I. assert (Neg := H1 z I). rewrite !in_app_iff in Hz.
+      destruct Hz as [Hz|[Hz|[Hz|Hz]]].
+      - apply HT in Hz. lia.
+      - apply HB in Hz. lia.
+      - apply HBt in Hz. lia.
+      - exact (D12 z Hz I). }
+  rewrite (first_mentions_id S1 N1). f_equal.
+  rewrite first_mentions_app. f_equal.
+  rewrite first_mentions_app_disjoint.
+  2:{ intros z Hz I. apply HB in I. rewrite in_app_iff in Hz. destruct Hz as [Hz|Hz].
+      - tauto.
+      - apply H2 in Hz. lia. }
+  rewrite first_mentions_app_disjoint.
+  2:{ intros z Hz I. apply HBt in I. apply H2 in Hz. lia. }
+  rewrite (first_mentions_id B NB), (first_mentions_id S2 N2).
+  rewrite !filter_app. f_equal; [|f_equal].
+  - apply filter_all_true. intros z Hz. apply znotin_true. apply HB in Hz. tauto.
+  - apply filter_all_true. intros z Hz. apply znotin_true. intros I.
+    apply HT in I. apply H2 in Hz. lia.
+Qed.
+
+(* de-duplicating the concatenation = concatenating for the normalised fixed lists *)
+Theorem sbv_segments_first_mentions ids s vals svals :
+  first_mentions (List.concat (sbv_segments ids s vals svals))
+  = List.concat (sbv_segments ids (fixed_normal s) vals svals).
+Proof.
+  unfold sbv_segments. cbv zeta. cbn [List.concat]. rewrite !app_nil_r.
+  assert (D : s_desc (fixed_normal s) = s_desc s) by reflexivity. rewrite D.
+  set (top := fixed_idxs ids (s_top s)). set (bottom := fixed_idxs ids (s_bottom s)).
+  set (subs := subtotal_idxs (s_desc s) svals).
+  rewrite (body_idxs_ext (s_desc s) vals _ (top ++ bottom) (fixed_normal_members ids s)).
+  rewrite first_mentions_five.
+  - unfold top, bottom. rewrite !fixed_first_mentions, fixed_bottom_minus_top. reflexivity.
+  - destruct (s_desc s); [apply subtotal_idxs_nodup|constructor].
+  - apply body_idxs_nodup.
+  - destruct (s_desc s); [constructor|apply subtotal_idxs_nodup].
+  - intros z Hz. destruct (s_desc s); [|destruct Hz]. apply subtotal_idxs_in in Hz. lia.
+  - intros z Hz. destruct (s_desc s); [destruct Hz|]. apply subtotal_idxs_in in Hz. lia.
+  - intros z Hz. destruct (s_desc s); [destruct Hz|]. intros [].
+  - intros z Hz. apply in_map_iff in Hz. destruct Hz as (k & <- & _). lia.
+  - intros z Hz. apply in_map_iff in Hz. destruct Hz as (k & <- & _). lia.
+  - intros z Hz. assert (P := body_idxs_nonneg _ _ _ _ Hz). split; [exact P|].
+    rewrite <- (Z2Nat.id z P) in Hz |- *. apply body_idxs_in in Hz. destruct Hz as [_ Hz].
+    rewrite in_app_iff in Hz. rewrite !in_map_of_nat. tauto.
+Qed.
+
+(* THE SHAPE, for any fixed lists: the display order is the plain concatenation for the fixed
+   lists in which every id stands where it is first mentioned *)
+Theorem sbv_display_normal d s vals svals empties :
+  sbv_display d s vals svals empties = sbv_plain d (fixed_normal s) vals svals empties.
+Proof.
+  unfold sbv_display, sbv_plain, displayed.
+  rewrite first_mentions_filter, sbv_segments_first_mentions. reflexivity.
+Qed.
+
+(* ... and when no element is named twice there is nothing to drop *)
+Lemma sbv_concat_perm ids s vals svals :
+  Permutation (List.concat (sbv_segments ids s vals svals))
+              (subtotal_idxs (s_desc s) svals
+               ++ map Z.of_nat (fixed_idxs ids (s_top s) ++ fixed_idxs ids (s_bottom s))
+               ++ body_idxs (s_desc s) vals (fixed_idxs ids (s_top s) ++ fixed_idxs ids (s_bottom s))).
+Proof.
+  unfold sbv_segments. cbv zeta. simpl. rewrite app_nil_r. rewrite map_app.
+  set (S := subtotal_idxs (s_desc s) svals).
+  set (T := map Z.of_nat (fixed_idxs ids (s_top s))).
+  set (Bt := map Z.of_nat (fixed_idxs ids (s_bottom s))).
+  set (Bd := body_idxs (s_desc s) vals _).
+  assert (P : Permutation (T ++ Bd ++ Bt) ((T ++ Bt) ++ Bd)).
+  { rewrite <- app_assoc. apply Permutation_app_head. apply Permutation_app_comm. }
+  destruct (s_desc s); simpl.
+  - rewrite app_nil_r. apply Permutation_app_head. exact P.
+  - eapply Permutation_trans.
+    + replace (T ++ Bd ++ Bt ++ S) with ((T ++ Bd ++ Bt) ++ S) by (rewrite <- !app_assoc; reflexivity).
+      apply Permutation_app_comm.
+    + apply Permutation_app_head. exact P.
+Qed.
+
+Theorem sbv_plain_nodup d s vals svals empties :
+  fixed_once (d_ids d) s -> NoDup (sbv_plain d s vals svals empties).
+Proof.
+  intros F. unfold sbv_plain, displayed. apply NoDup_filter_any.
+  eapply Permutation_NoDup; [apply Permutation_sym, sbv_concat_perm|].
+  assert (NF : NoDup (fixed_idxs (d_ids d) (s_top s) ++ fixed_idxs (d_ids d) (s_bottom s))).
+  { rewrite <- fixed_idxs_app. apply fixed_idxs_nodup. exact F. }
+  apply NoDup_app_disj.
+  - apply subtotal_idxs_nodup.
+  - apply NoDup_app_disj.
+    + apply NoDup_map_of_nat. exact NF.
+    + apply body_idxs_nodup.
+    + intros z Hf Hb. apply in_map_iff in Hf. destruct Hf as (k & <- & Hk).
+      apply body_idxs_in in Hb. destruct Hb as [_ Hb]. contradiction.
+  - intros z Hs Ho. apply subtotal_idxs_in in Hs. apply in_app_or in Ho. destruct Ho as [Ho|Ho].
+    + apply in_map_iff in Ho. destruct Ho as (k & <- & _). lia.
+    + apply body_idxs_nonneg in Ho. lia.
+Qed.
+
+Theorem sbv_display_fixed_once d s vals svals empties :
+  fixed_once (d_ids d) s ->
+  sbv_display d s vals svals empties = sbv_plain d s vals svals empties.
+Proof.
+  intros F. rewrite sbv_display_first_mentions. apply first_mentions_id.
+  apply sbv_plain_nodup. exact F.
+Qed.
+
+Theorem sbv_display_nodup d s vals svals empties : NoDup (sbv_display d s vals svals empties).
+Proof. rewrite sbv_display_first_mentions. apply first_mentions_nodup. Qed.
+
 (* --- shape ------------------------------------------------------------------------------------------- *)
-Theorem sbv_shape d s vals svals empties :
-  sbv_display d s vals svals empties =
+Lemma sbv_plain_shape d s vals svals empties :
+  sbv_plain d s vals svals empties =
   let ids := d_ids d in
   let top := fixed_idxs ids (s_top s) in
   let bottom := fixed_idxs ids (s_bottom s) in
@@ -321,8 +730,47 @@ Theorem sbv_shape d s vals svals empties :
      ++ map Z.of_nat bottom
      ++ (if s_desc s then [] else subs)).
 Proof.
-  unfold sbv_display, sbv_segments, body_idxs, subtotal_idxs. cbv zeta. simpl.
+  unfold sbv_plain, sbv_segments, body_idxs, subtotal_idxs. cbv zeta. simpl.
   rewrite app_nil_r. reflexivity.
+Qed.
+
+(* no element of the dimension named twice in the fixed lists: the concatenation as it stands *)
+Theorem sbv_shape_fixed_once d s vals svals empties :
+  fixed_once (d_ids d) s ->
+  sbv_display d s vals svals empties =
+  let ids := d_ids d in
+  let top := fixed_idxs ids (s_top s) in
+  let bottom := fixed_idxs ids (s_bottom s) in
+  let subs := map snd (sort_vkeys (s_desc s) (subtotal_keys svals)) ++ subtotal_nans svals in
+  displayed (collator_hidden d empties)
+    ((if s_desc s then subs else [])
+     ++ map Z.of_nat top
+     ++ (map snd (sort_vkeys (s_desc s) (body_keys vals (top ++ bottom)))
+         ++ body_nans vals (top ++ bottom))
+     ++ map Z.of_nat bottom
+     ++ (if s_desc s then [] else subs)).
+Proof. intros F. rewrite (sbv_display_fixed_once _ _ _ _ _ F). apply sbv_plain_shape. Qed.
+
+(* any fixed lists: the fixed groups are those of [fixed_normal s] (first mention wins, inside a list
+   and across top then bottom); the body leaves out every element that s names in a fixed list *)
+Theorem sbv_shape d s vals svals empties :
+  sbv_display d s vals svals empties =
+  let ids := d_ids d in
+  let top := fixed_idxs ids (s_top (fixed_normal s)) in
+  let bottom := fixed_idxs ids (s_bottom (fixed_normal s)) in
+  let fixed := fixed_idxs ids (s_top s) ++ fixed_idxs ids (s_bottom s) in
+  let subs := map snd (sort_vkeys (s_desc s) (subtotal_keys svals)) ++ subtotal_nans svals in
+  displayed (collator_hidden d empties)
+    ((if s_desc s then subs else [])
+     ++ map Z.of_nat top
+     ++ (map snd (sort_vkeys (s_desc s) (body_keys vals fixed)) ++ body_nans vals fixed)
+     ++ map Z.of_nat bottom
+     ++ (if s_desc s then [] else subs)).
+Proof.
+  rewrite sbv_display_normal, sbv_plain_shape. cbv zeta.
+  assert (D : s_desc (fixed_normal s) = s_desc s) by reflexivity. rewrite D.
+  assert (B := body_idxs_ext (s_desc s) vals _ _ (fixed_normal_members (d_ids d) s)).
+  unfold body_idxs in B. rewrite B. reflexivity.
 Qed.
 
 (* fallback: an unresolvable sort key gives exactly the anchored payload order *)
